@@ -178,12 +178,15 @@ Proofs/C19Facts.vos Proofs/C19Facts.vok Proofs/C19Facts.required_vos: Proofs/C19
 Props/C19.vo Props/C19.glob Props/C19.v.beautified Props/C19.required_vo: Props/C19.v Base/Result.vo Model/FM.vo Model/Queries.vo Model/Metrics.vo Model/GenRandom.vo Proofs/C17Facts.vo Proofs/C19Facts.vo
 Props/C19.vio: Props/C19.v Base/Result.vio Model/FM.vio Model/Queries.vio Model/Metrics.vio Model/GenRandom.vio Proofs/C17Facts.vio Proofs/C19Facts.vio
 Props/C19.vos Props/C19.vok Props/C19.required_vos: Props/C19.v Base/Result.vos Model/FM.vos Model/Queries.vos Model/Metrics.vos Model/GenRandom.vos Proofs/C17Facts.vos Proofs/C19Facts.vos
+Proofs/PositionalFacts.vo Proofs/PositionalFacts.glob Proofs/PositionalFacts.v.beautified Proofs/PositionalFacts.required_vo: Proofs/PositionalFacts.v Base/Str.vo
+Proofs/PositionalFacts.vio: Proofs/PositionalFacts.v Base/Str.vio
+Proofs/PositionalFacts.vos Proofs/PositionalFacts.vok Proofs/PositionalFacts.required_vos: Proofs/PositionalFacts.v Base/Str.vos
 Proofs/AfmFacts.vo Proofs/AfmFacts.glob Proofs/AfmFacts.v.beautified Proofs/AfmFacts.required_vo: Proofs/AfmFacts.v Base/Result.vo Base/Str.vo Base/AstOp.vo Model/Ast.vo Model/FM.vo Model/PFM.vo Model/Queries.vo Gen/Tables_afm.vo Format/Afm.vo Proofs/FMFacts.vo Proofs/QueriesFacts.vo Proofs/JsonFacts.vo
 Proofs/AfmFacts.vio: Proofs/AfmFacts.v Base/Result.vio Base/Str.vio Base/AstOp.vio Model/Ast.vio Model/FM.vio Model/PFM.vio Model/Queries.vio Gen/Tables_afm.vio Format/Afm.vio Proofs/FMFacts.vio Proofs/QueriesFacts.vio Proofs/JsonFacts.vio
 Proofs/AfmFacts.vos Proofs/AfmFacts.vok Proofs/AfmFacts.required_vos: Proofs/AfmFacts.v Base/Result.vos Base/Str.vos Base/AstOp.vos Model/Ast.vos Model/FM.vos Model/PFM.vos Model/Queries.vos Gen/Tables_afm.vos Format/Afm.vos Proofs/FMFacts.vos Proofs/QueriesFacts.vos Proofs/JsonFacts.vos
-Props/C06.vo Props/C06.glob Props/C06.v.beautified Props/C06.required_vo: Props/C06.v Base/Result.vo Model/Ast.vo Model/FM.vo Model/PFM.vo Format/Afm.vo Proofs/AfmFacts.vo
-Props/C06.vio: Props/C06.v Base/Result.vio Model/Ast.vio Model/FM.vio Model/PFM.vio Format/Afm.vio Proofs/AfmFacts.vio
-Props/C06.vos Props/C06.vok Props/C06.required_vos: Props/C06.v Base/Result.vos Model/Ast.vos Model/FM.vos Model/PFM.vos Format/Afm.vos Proofs/AfmFacts.vos
+Props/C06.vo Props/C06.glob Props/C06.v.beautified Props/C06.required_vo: Props/C06.v Base/Result.vo Model/Ast.vo Model/FM.vo Model/PFM.vo Format/Afm.vo Base/Str.vo Proofs/PositionalFacts.vo Proofs/AfmFacts.vo
+Props/C06.vio: Props/C06.v Base/Result.vio Model/Ast.vio Model/FM.vio Model/PFM.vio Format/Afm.vio Base/Str.vio Proofs/PositionalFacts.vio Proofs/AfmFacts.vio
+Props/C06.vos Props/C06.vok Props/C06.required_vos: Props/C06.v Base/Result.vos Model/Ast.vos Model/FM.vos Model/PFM.vos Format/Afm.vos Base/Str.vos Proofs/PositionalFacts.vos Proofs/AfmFacts.vos
 Props/C12.vo Props/C12.glob Props/C12.v.beautified Props/C12.required_vo: Props/C12.v Base/Result.vo Model/FM.vo Format/Json.vo Format/Glencoe.vo Format/Xml.vo Format/Uvl.vo Format/Afm.vo Format/Export.vo
 Props/C12.vio: Props/C12.v Base/Result.vio Model/FM.vio Format/Json.vio Format/Glencoe.vio Format/Xml.vio Format/Uvl.vio Format/Afm.vio Format/Export.vio
 Props/C12.vos Props/C12.vok Props/C12.required_vos: Props/C12.v Base/Result.vos Model/FM.vos Format/Json.vos Format/Glencoe.vos Format/Xml.vos Format/Uvl.vos Format/Afm.vos Format/Export.vos
@@ -232,6 +235,6 @@ Proofs/C11Facts.vos Proofs/C11Facts.vok Proofs/C11Facts.required_vos: Proofs/C11
 Props/C10.vo Props/C10.glob Props/C10.v.beautified Props/C10.required_vo: Props/C10.v Base/Result.vo Base/AstOp.vo Model/Ast.vo Model/FM.vo Model/Queries.vo Model/Sem.vo Format/Export.vo Proofs/C18Facts.vo Proofs/C10Facts.vo
 Props/C10.vio: Props/C10.v Base/Result.vio Base/AstOp.vio Model/Ast.vio Model/FM.vio Model/Queries.vio Model/Sem.vio Format/Export.vio Proofs/C18Facts.vio Proofs/C10Facts.vio
 Props/C10.vos Props/C10.vok Props/C10.required_vos: Props/C10.v Base/Result.vos Base/AstOp.vos Model/Ast.vos Model/FM.vos Model/Queries.vos Model/Sem.vos Format/Export.vos Proofs/C18Facts.vos Proofs/C10Facts.vos
-Props/C11.vo Props/C11.glob Props/C11.v.beautified Props/C11.required_vo: Props/C11.v Base/Result.vo Base/AstOp.vo Model/Ast.vo Model/FM.vo Model/Queries.vo Model/Sem.vo Format/Export.vo Proofs/C18Facts.vo Proofs/C11Facts.vo
-Props/C11.vio: Props/C11.v Base/Result.vio Base/AstOp.vio Model/Ast.vio Model/FM.vio Model/Queries.vio Model/Sem.vio Format/Export.vio Proofs/C18Facts.vio Proofs/C11Facts.vio
-Props/C11.vos Props/C11.vok Props/C11.required_vos: Props/C11.v Base/Result.vos Base/AstOp.vos Model/Ast.vos Model/FM.vos Model/Queries.vos Model/Sem.vos Format/Export.vos Proofs/C18Facts.vos Proofs/C11Facts.vos
+Props/C11.vo Props/C11.glob Props/C11.v.beautified Props/C11.required_vo: Props/C11.v Base/Result.vo Base/AstOp.vo Model/Ast.vo Model/FM.vo Model/Queries.vo Model/Sem.vo Format/Export.vo Base/Str.vo Proofs/PositionalFacts.vo Proofs/C18Facts.vo Proofs/C11Facts.vo
+Props/C11.vio: Props/C11.v Base/Result.vio Base/AstOp.vio Model/Ast.vio Model/FM.vio Model/Queries.vio Model/Sem.vio Format/Export.vio Base/Str.vio Proofs/PositionalFacts.vio Proofs/C18Facts.vio Proofs/C11Facts.vio
+Props/C11.vos Props/C11.vok Props/C11.required_vos: Props/C11.v Base/Result.vos Base/AstOp.vos Model/Ast.vos Model/FM.vos Model/Queries.vos Model/Sem.vos Format/Export.vos Base/Str.vos Proofs/PositionalFacts.vos Proofs/C18Facts.vos Proofs/C11Facts.vos
